@@ -122,6 +122,8 @@ func execConc(op string, a []string) vlib.Res {
 		return execLimRace(a)
 	case "expire":
 		return execExpire(a)
+	case "failrace":
+		return execFailRace(a)
 	case "run":
 		if len(a) != 6 {
 			break
